@@ -211,3 +211,72 @@ func verifH_c01_hash_api() {
 	verifAssert(verifEqBytes(h.Sum(nil), ref(m[:a])), "after Reset the object hashes from scratch")
 	verifReach("end")
 }
+
+// ---- blockGeneric = the compression function CF of GB/T 32905 (5.3.2, 5.3.3) ----
+
+func c01RotL(x uint32, k uint) uint32 { k %= 32; return x<<k | x>>(32-k) }
+func c01P0(x uint32) uint32          { return x ^ c01RotL(x, 9) ^ c01RotL(x, 17) }
+func c01P1(x uint32) uint32          { return x ^ c01RotL(x, 15) ^ c01RotL(x, 23) }
+
+// CF written from the standard in loop form: message expansion, then 64 rounds with
+// FF_j/GG_j = xor (j < 16) or majority / choice (j >= 16), T_j = 79cc4519 / 7a879d8a.
+func c01CFSpec(v [8]uint32, blk []byte) [8]uint32 {
+	var w [68]uint32
+	var w1 [64]uint32
+	for j := 0; j < 16; j++ {
+		w[j] = uint32(blk[4*j])<<24 | uint32(blk[4*j+1])<<16 | uint32(blk[4*j+2])<<8 | uint32(blk[4*j+3])
+	}
+	for j := 16; j < 68; j++ {
+		w[j] = c01P1(w[j-16]^w[j-9]^c01RotL(w[j-3], 15)) ^ c01RotL(w[j-13], 7) ^ w[j-6]
+	}
+	for j := 0; j < 64; j++ {
+		w1[j] = w[j] ^ w[j+4]
+	}
+	a, b, c, d, e, f, g, h := v[0], v[1], v[2], v[3], v[4], v[5], v[6], v[7]
+	for j := 0; j < 64; j++ {
+		t := uint32(0x79cc4519)
+		if j >= 16 {
+			t = 0x7a879d8a
+		}
+		ss1 := c01RotL(c01RotL(a, 12)+e+c01RotL(t, uint(j)), 7)
+		ss2 := ss1 ^ c01RotL(a, 12)
+		var ff, gg uint32
+		if j < 16 {
+			ff = a ^ b ^ c
+			gg = e ^ f ^ g
+		} else {
+			ff = (a & b) | (a & c) | (b & c)
+			gg = (e & f) | (^e & g)
+		}
+		tt1 := ff + d + ss2 + w1[j]
+		tt2 := gg + h + ss1 + w[j]
+		d = c
+		c = c01RotL(b, 9)
+		b = a
+		a = tt1
+		h = g
+		g = c01RotL(f, 19)
+		f = e
+		e = c01P0(tt2)
+	}
+	return [8]uint32{a ^ v[0], b ^ v[1], c ^ v[2], d ^ v[3], e ^ v[4], f ^ v[5], g ^ v[6], h ^ v[7]}
+}
+
+// for every chaining value and every 64-byte block; one block, and two blocks in one call
+func verifH_c01_block() {
+	nb := verifParam("blocks")
+	verifWordLevel(true) // keep 32-bit words whole so that the chained lemmas relate round registers
+	var d digest
+	for i := range d.h {
+		d.h[i] = verifU32("h")
+	}
+	v := d.h
+	p := verifBytes("p", 64*nb)
+	blockGeneric(&d, p)
+	want := v
+	for i := 0; i < nb; i++ {
+		want = c01CFSpec(want, p[64*i:])
+	}
+	verifAssertEqSweep(c01Digest(d.h), c01Digest(want), "blockGeneric equals the compression function of GB/T 32905 for every chaining value and block")
+	verifReach("end")
+}
